@@ -1,6 +1,7 @@
 import GT.DriverCore
 import GT.DriverApprox
 import GT.DriverTrunc
+import GT.DriverHetero
 /-!
 # Line-protocol driver: instruction dispatch and main loop (see `GT/DriverCore.lean`)
 -/
@@ -412,6 +413,7 @@ def exec (dst : Nat) (op : String) : M Unit := do
   | _ => do
     if (← execApprox dst op) then return ()
     if (← execTrunc dst op) then return ()
+    if (← execHetero dst op) then return ()
     refuse "bad-op"
 
 def runLine (st : St) (line : String) : St × String :=
